@@ -98,7 +98,7 @@ AddNotify ==                                \* completed chain: w <- t.ToTransfe
   /\ UNCHANGED <<pcur, nadds, tr, wg, aborted, panicked, incoming, incClosed, sAdds>> /\ UNCH_P
 
 WaitCall ==                                 \* close(q.incoming)
-  /\ ppc = "idle" /\ ~panicked /\ nadds > 0
+  /\ ppc = "idle" /\ ~panicked
   /\ incClosed' = TRUE /\ ppc' = "waitwg"
   /\ UNCHANGED <<pcur, nadds, tr, wg, aborted, panicked, incoming, watch, sAdds>> /\ UNCH_P
 
